@@ -204,7 +204,7 @@ func runC13(c *Ctx) {
 	// shutdown swept across the list/tick cycle
 	nstop := 8
 	if !c.Quick() {
-		nstop = 40
+		nstop = 160
 	}
 	for _, rl := range []float64{0, 0.5, 1.5, 3} {
 		for i := 0; i < nstop; i++ {
@@ -246,7 +246,7 @@ func runC13(c *Ctx) {
 	// other periods, seeded
 	n := 20
 	if !c.Quick() {
-		n = 400
+		n = 2000
 	}
 	for i := 0; i < n; i++ {
 		p := time.Duration(1+c.Rng.Intn(5000)) * time.Millisecond
